@@ -397,6 +397,16 @@ func exprPoly(info *types.Info, e ast.Expr, defs map[types.Object]localDef, stop
 			return polyMul(a, b), true
 		case token.QUO:
 			return polyDiv(a, b), true
+		case token.SHL:
+			// x << c with a constant c is x * 2^c
+			if cb, ok := b.isConst(); ok && cb >= 0 && cb < 62 {
+				return polyMul(a, polyConst(int64(1)<<uint(cb))), true
+			}
+		case token.REM:
+			safe := func(p Poly) string {
+				return strings.NewReplacer("*", "\u00b7", " ", "").Replace(p.String())
+			}
+			return polyAtom("mod(" + safe(a) + "," + safe(b) + ")"), true
 		}
 	}
 	return nil, false
